@@ -14,10 +14,11 @@ package handshake
 //@   modifies nothing
 
 //@ func (g *TokenGenerator) DecodeToken
-//@   props C14
+//@   props C14 C08
 //@   ensures [absent] implies(len(encrypted) == 0, result0 == nil && result1 == nil)
 //@   ensures [error-means-no-token] implies(result1 != nil, result0 == nil)
 //@   ensures [retry-fields-only-for-retry] implies(result0 != nil && !result0.IsRetryToken, result0.OriginalDestConnectionID.l == 0 && result0.RetrySrcConnectionID.l == 0)
+//@   ensures [conn-id-lengths] implies(result0 != nil, result0.OriginalDestConnectionID.l <= 20 && result0.RetrySrcConnectionID.l <= 20)
 //@   modifies nothing
 
 //@ func (s *tokenProtector) DecodeToken
